@@ -102,7 +102,10 @@ static void RunDepfile(const string& in) {
 static void RunDyndep(const string& in) {
   State state;
   MemReader r;
-  r.files["build.ninja"] = "rule r\n  command = c\nbuild out: r in || dd\n  dyndep = dd\nbuild out2x: r in\n";
+  // two statements bound to the same dyndep file (the loader walks the file's out-edges while it
+  // splices new inputs in), one statement without a binding
+  r.files["build.ninja"] = "rule r\n  command = c\nbuild out: r in || dd\n  dyndep = dd\nbuild out2x: r in || dd\n  dyndep = dd\n"
+                           "build out3: r in\n";
   ManifestParser mp(&state, &r);
   string err;
   if (!mp.Load("build.ninja", &err)) abort();
@@ -281,7 +284,8 @@ static vector<Format> Formats() {
   f.push_back({"dyndep",
                {"ninja_dyndep_version = 1\n", "ninja_dyndep_version = 1.0\n", "ninja_dyndep_version = 2\n", "build out: dyndep",
                 " | ", "in2", " out2", "\n", "  restat = 1\n", "build ", "out", ":", " dyndep", "$", "$\n", "#c\n", "x = 1\n",
-                string(1, '\0'), "\r\n", " out2x", "in", "out2x", "dd", "build in: dyndep\n", "build out2x: dyndep\n"},
+                string(1, '\0'), "\r\n", " out2x", "in", "out2x", "dd", "build in: dyndep\n", "build out2x: dyndep\n", "build out: dyndep | dd\n",
+                "build out3: dyndep\n"},
                RunDyndep});
   f.push_back({"ninja_log",
                {"# ninja log v7\n", "# ninja log v6\n", "# ninja log v", "1", "\t", "a", "\n", "99999999999999999999", "-1",
